@@ -32,6 +32,7 @@ const (
 	stPresentMode = "present_other_mode"
 	stPresentFile = "present_regular_file" // Symlink over a regular file
 	stBlocked     = "blocked_by_file"      // UnpackArchive: a file sits where the directory goes
+	stPresentDir  = "present_empty_dir"    // Symlink where an empty directory sits: rename(2) cannot replace it; the operation may fail, the directory must not vanish meanwhile
 )
 
 // Temp-location variants.
@@ -447,6 +448,11 @@ func build(c caseDef) (*built, error) {
 			if err := writeFileMode(dest, oldData, 0o644); err != nil {
 				return nil, err
 			}
+		case stPresentDir:
+			if err := os.Mkdir(dest, 0o755); err != nil {
+				return nil, err
+			}
+			spec.ErrorAllowed = true
 		}
 		b.exp.Targets = []target{{Path: dest, Kind: "symlink", NewLink: spec.Src}}
 		b.exp.Temps = []tempRule{{Dir: dst, Pattern: tempPattern(dest), Kind: "symlinkdir"}}
